@@ -1061,9 +1061,10 @@ def register_builtins(L):
                 return Opaque(name)
             shape = a.shape
             like_kind = a.kind        # *_like inherits the dtype of the template unless dtype= is given
-        if isinstance(shape, Ref) and isinstance(st.get(shape), ListData) and isinstance(st.get(shape).n, int) and st.get(shape).n <= 3:
+        if getattr(L, "list_shapes", False) and isinstance(shape, Ref) and isinstance(st.get(shape), ListData) and isinstance(st.get(shape).n, int) \
+                and st.get(shape).n <= 3:
             ld = st.get(shape)
-            shape = tuple(ld.sel(k_) for k_ in range(ld.n))        # np.full([n, m], v): a list works as a shape
+            shape = tuple(ld.sel(k_) for k_ in range(ld.n))        # np.full([n, m], v): a list works as a shape (opt-in per unit library)
         if not isinstance(shape, tuple):
             shape = (shape,)
         if any(not (is_int_like(s)) for s in shape):
@@ -1146,7 +1147,9 @@ def register_builtins(L):
             return st.alloc(res)
         if a is None or "axis" in kw or len(args) > 1:
             return Opaque("sum") if a is None else E.unknown_call("np.sum(axis)", [], {}, st, node)
-        if a.kind == "f" and a.ndim == 1 and getattr(a, "scatter", None) is None and not getattr(a, "zero_one", False):
+        sc_ = getattr(a, "scatter", None)
+        ones_into_zeros = sc_ is not None and getattr(sc_[4], "all_zero", False) and _is_one_val(sc_[3])
+        if a.kind == "f" and a.ndim == 1 and not ones_into_zeros and not getattr(a, "zero_one", False):
             # sum of the non-NaN entries of a real array: S with  (all non-NaN entries >= 0)  ->
             #   S >= every non-NaN entry, S >= 0, and S = 0 iff all non-NaN entries are 0
             _used(E, "np.nansum of a non-negative array (S bounds every entry; S=0 iff all entries are 0)")
@@ -1650,8 +1653,8 @@ def count_true(E, a, st):
             st.assume(z3.Implies(z3.And(distinct, inrange), c == n))
     if a.kind == "b":
         return c
-    if getattr(a, "zero_one", False) or sc is not None:
-        return z3.ToReal(c)
+    if getattr(a, "zero_one", False) or (sc is not None and getattr(sc[4], "all_zero", False) and _is_one_val(sc[3])):
+        return z3.ToReal(c)          # only a 0/1 array sums up to its count of non-zero entries
     if a.kind == "i":           # integer array: an integer; equal to the count of non-zero entries when every entry is 0 or 1
         sm = fresh("sum", I)
         st.assume(z3.Implies(z3.ForAll(idx, z3.Implies(rng, z3.Or(to_int(a.sel(*idx)) == 0, to_int(a.sel(*idx)) == 1))), sm == c))
